@@ -509,7 +509,7 @@ static void conv_case(const char* pn, pplv::Rng& rng) {
   T to0 = pick<T>(rng, 0);
   N nt; nt.raw_value() = to0;
   std::string head = std::string(" ") + TName<T>::name() + " " + pn + " ";
-  switch (rng.below(4)) {
+  switch (rng.below(5)) {
   case 0: {
     mpz_class v = around_limits(rng, lo, hi);
     Result r = assign_r(nt, v, d);
@@ -545,6 +545,21 @@ static void conv_case(const char* pn, pplv::Rng& rng) {
     out("c " + std::to_string(++g_id) + head + opn + " " + std::to_string((unsigned) d) + " " + dec(to0) + " " + m
         + " 0 " + std::to_string(k) + " " + dec(nt.raw_value()) + " " + std::to_string((unsigned) r));
     break; }
+  case 4: {
+    // the other direction: assign_r(mpz_class, mpq_class, dir), with and without ROUND_STRICT_RELATION
+    //   c <id> <T> <P> zFromQ <dir|strict> 0 <num> <den> 0 <stored> <result>
+    mpz_class n = around_limits(rng, lo, hi);
+    mpz_class dd = 1 + (long) rng.below(rng.chance(1, 2) ? 4 : 1000);
+    if (rng.chance(1, 2)) n = n * dd + (int) rng.below(5) - 2;
+    mpq_class q(n, dd); q.canonicalize();
+    Rounding_Dir dz = d;
+    if (round_dir(dz) == ROUND_NOT_NEEDED && q.get_den() != 1) dz = ROUND_IGNORE;
+    if (rng.chance(1, 2)) dz = static_cast<Rounding_Dir>(dz | ROUND_STRICT_RELATION);
+    Checked_Number<mpz_class, Extended_Number_Policy> z;
+    Result r = assign_r(z, q, dz);
+    out("c " + std::to_string(++g_id) + head + "zFromQ " + std::to_string((unsigned) dz) + " 0 " + q.get_num().get_str()
+        + " " + q.get_den().get_str() + " 0 " + z.raw_value().get_str() + " " + std::to_string((unsigned) r));
+    break; }
   default: {
     float x;
     switch (rng.below(6)) {
@@ -572,6 +587,27 @@ static void wide_cmp(const char* pn, pplv::Rng& rng) {
   out("q " + std::to_string(++g_id) + " " + TName<T>::name() + " " + pn + " sgn " + dec(x) + " 0 " + std::to_string((unsigned) r));
 }
 
+// ---- gcdext: three outputs ------------------------------------------------------------------------
+//   gx <id> <T> <P> <dir> <x> <y> <to0> <s0> <t0> <to> <s> <t> <result>
+template <typename T, typename P>
+static void gcdext_case(const char* pn, pplv::Rng& rng) {
+  Rounding_Dir d = DIRS[rng.below(4)];
+  T x = pick<T>(rng, 0), y = pick<T>(rng, 0);
+  switch (rng.below(8)) {
+  case 0: x = 0; y = 0; break;
+  case 1: y = 0; break;
+  case 2: x = 0; break;
+  case 3: y = x; break;
+  case 4: x = (T) (1 + rng.below(120)); y = (T) (1 + rng.below(120)); break;
+  default: break;
+  }
+  T to0 = (T) 77, s0 = (T) 5, t0 = (T) 6;
+  T to = to0, s = s0, t = t0;
+  Result r = Checked::gcdext_ext<P, P, P, P, P>(to, s, t, x, y, d);
+  out("gx " + std::to_string(++g_id) + " " + TName<T>::name() + " " + pn + " " + std::to_string((unsigned) d) + " " + dec(x) + " " + dec(y)
+      + " " + dec(to0) + " " + dec(s0) + " " + dec(t0) + " " + dec(to) + " " + dec(s) + " " + dec(t) + " " + std::to_string((unsigned) r));
+}
+
 template <typename P16, typename PU16, typename P32, typename PU32, typename P64, typename PU64, typename PA>
 static void wide_policy(const char* pn, pplv::Rng& rng, long count) {
   for (long i = 0; i < count; ++i) {
@@ -589,7 +625,20 @@ static void wide_policy(const char* pn, pplv::Rng& rng, long count) {
       }
       break;
     case 9:
-      if (rng.chance(1, 2)) conv_case<int64_t, P64>(pn, rng); else conv_case<uint64_t, PU64>(pn, rng);
+      switch (rng.below(3)) {
+      case 0: conv_case<int64_t, P64>(pn, rng); break;
+      case 1: conv_case<uint64_t, PU64>(pn, rng); break;
+      default:
+        switch (rng.below(6)) {
+        case 0: gcdext_case<int8_t, PA>(pn, rng); break;
+        case 1: gcdext_case<uint8_t, PA>(pn, rng); break;
+        case 2: gcdext_case<int16_t, P16>(pn, rng); break;
+        case 3: gcdext_case<int32_t, P32>(pn, rng); break;
+        case 4: gcdext_case<int64_t, P64>(pn, rng); break;
+        default: gcdext_case<uint32_t, PU32>(pn, rng); break;
+        }
+        break;
+      }
       break;
     case 0: wide_case<int16_t, P16>(pn, rng); break;
     case 1: wide_case<uint16_t, PU16>(pn, rng); break;
